@@ -456,7 +456,7 @@ Proof.
         match goal with |- context [match unit_name ?x with _ => _ end] => destruct (unit_name x) end.
         -- match goal with |- context [if ?c then _ else _] => destruct c end; [exact OKS|].
            destruct (t_exits T); [|exact OKS]. cbn. split; [discriminate|discriminate].
-        -- cbn. split; [discriminate|]. intros _. exact EX3.
+        -- destruct (t_exits T); [|exact OKS]. cbn. split; [discriminate|discriminate].
   - (* LAbort *)
     cbn [ok_loop] in LP. destruct LP as [AB [E1 C1]]. unfold same_cur in C1. cbn in E1, C1.
     rewrite (Ha AB) in TR. cbn in TR. cbn. split; [exact E1|]. unfold same_cur. now rewrite C1.
